@@ -23,6 +23,8 @@ def run(ctx, replay=None):
                 return
     canary(ctx, corrupt, "C12:growth-sign-vs-Rcrit")
     judge(ctx, ["C12:"])
+    from ..cfg_part import config_part
+    config_part(ctx, ["C12:"], "c12")      # ModelConfig.tla: setters in any order, reset()+setup(): the derived data are those of the inputs in force
     scans = TD.gibbs_scans(ctx.tier) + TD.supersaturation_scans(ctx.tier)
     traces = [ev for (_, ev) in scans]
     reached, res = T.validate("Scan", [], traces, "c12_scan")
